@@ -76,6 +76,14 @@ class DecoderView:
                 out.append((n, unparse(n.func.value), self.fold_str(n.args[0])))
         return out
 
+    def start_search(self):
+        """The frame-start search: the one search over the whole buffer (no range arguments).
+        Ranged searches on the buffer are re-synchronisation scans inside a bad frame."""
+        cands = [(c, r, lit) for c, r, lit in self.searches() if r == self.buf and len(c.args) == 1]
+        if len(cands) != 1:
+            raise AnalysisError(f"decode: expected one frame-start search over the whole buffer, found {len(cands)}")
+        return cands[0]
+
     def length_class(self, rnode):
         """Symbolic class of the consumed length on a return path (second tuple element):
         ALL | ALL-BUT-TAIL | KEEP | FRAME | OTHER:<text>."""
@@ -96,8 +104,21 @@ class DecoderView:
                     a = self.cfg.nodes[d].ast
                     if isinstance(a, ast.AugAssign) and not isinstance(a.op, ast.Add):
                         return "OTHER:" + t
+        def value_nodes(ex):
+            # the value-producing parts: the test of a conditional expression only selects
+            todo = [ex]
+            while todo:
+                x = todo.pop()
+                yield x
+                if isinstance(x, ast.IfExp):
+                    todo += [x.body, x.orelse]
+                elif isinstance(x, ast.Compare):
+                    continue
+                else:
+                    todo += list(ast.iter_child_nodes(x))
+
         for ex in exprs:
-            for x in ast.walk(ex):
+            for x in value_nodes(ex):
                 if isinstance(x, ast.BinOp) and not isinstance(x.op, ast.Add):
                     return "OTHER:" + t
                 if isinstance(x, ast.UnaryOp) and isinstance(x.op, ast.USub):
@@ -162,10 +183,7 @@ def extent_findings(dv: DecoderView):
     (construct, what, where-node)."""
     inst, bad = 0, []
     text_searches = [(c, r, lit) for c, r, lit in dv.searches() if r != dv.buf]
-    buf_searches = [(c, r, lit) for c, r, lit in dv.searches() if r == dv.buf]
-    if len(buf_searches) != 1:
-        raise AnalysisError(f"decode: expected one frame-start search on the buffer, found {len(buf_searches)}")
-    marker = buf_searches[0][2]
+    marker = dv.start_search()[2]
     if not isinstance(marker, (bytes, str)) or not marker:
         raise AnalysisError("decode: the frame-start marker does not fold to a literal")
     mtxt = marker.decode("latin-1") if isinstance(marker, bytes) else marker
@@ -232,3 +250,39 @@ def extent_findings(dv: DecoderView):
         if not ok:
             bad.append(("returned-bytes", "the bytes returned as third element are not the buffer slice [frame start : frame start + frame extent]", r.ast))
     return inst, bad
+
+
+def delimited_flags(dv: DecoderView):
+    """Boolean locals that say 'the candidate frame is delimited in the buffer': every definition is
+    `search_result != -1` for an SOH-anchored text search, or the constant True under such a test."""
+    out = set()
+    text_search_names = set()
+    for n in walk_no_nested(dv.fn):
+        if isinstance(n, ast.Assign) and len(n.targets) == 1 and isinstance(n.targets[0], ast.Name) and isinstance(n.value, ast.Call) \
+                and isinstance(n.value.func, ast.Attribute) and n.value.func.attr in ("find", "index") and unparse(n.value.func.value) != dv.buf \
+                and n.value.args and (dv.fold_str(n.value.args[0]) or "").startswith(dv.soh):
+            text_search_names.add(n.targets[0].id)
+    cands = {}
+    for n in dv.cfg.nodes:
+        if n.kind == "stmt" and isinstance(n.ast, ast.Assign) and len(n.ast.targets) == 1 and isinstance(n.ast.targets[0], ast.Name):
+            cands.setdefault(n.ast.targets[0].id, []).append(n)
+    for nm, nodes in cands.items():
+        ok = True
+        seen_cmp = False
+        for n in nodes:
+            v = n.ast.value
+            if isinstance(v, ast.Compare) and len(v.ops) == 1 and isinstance(v.ops[0], ast.NotEq) and isinstance(v.left, ast.Name) \
+                    and v.left.id in text_search_names and unparse(v.comparators[0]) == "-1":
+                seen_cmp = True
+            elif isinstance(v, ast.Constant) and v.value is True:
+                from .guards import facts
+                fs = set()
+                for t, lab in dv.cfg.guards(n.id, exc=False):
+                    fs |= facts(t, lab == "true")
+                if not any(tv and a.endswith("!= -1") and a.split(" ")[0] in text_search_names for a, tv in fs):
+                    ok = False
+            else:
+                ok = False
+        if ok and seen_cmp:
+            out.add(nm)
+    return out
